@@ -404,6 +404,11 @@ fn process_withdrawals_for_single_pool<C: ContentAddrStore>(
         .fold(0u128, |a, b| a.saturating_add(b));
     // get the state
     let mut pool_state = state.pools.get(pool).unwrap();
+    // More liquidity tokens than the pool ever issued cannot be redeemed (off mainnet a faucet can
+    // mint coins of any denomination, including a pool's token); PoolState::withdraw would panic.
+    if total_liqs > pool_state.liqs {
+        return;
+    }
     let (total_left, total_write) = pool_state.withdraw(total_liqs);
     state.pools.insert(*pool, pool_state);
     // divvy up the lefts and rights
